@@ -77,42 +77,52 @@ theorem cascade_all_reject (l : List Decision) (h : ∀ x ∈ l, x = .reject) : 
 /-! ## the guard tables, vendor by vendor -/
 
 section vendors
-variable (w : World) (d : Desc) (deep : Decision)
+variable (f : TabFlags) (w : World) (d : Desc) (deep : Decision)
 
 /-- unfold one table -/
 macro "vendor_simp" : tactic =>
   `(tactic| simp_all [isA, tab, tiffSteps, h5Pre, h5Body, firstFiring, evalCond, evalAtom, catches, World.regular, World.isPath,
       World.tiffEndian, worldOk, writtenPlace, noVendorHead, Vendor.foreign])
 
+-- unfold one table and close the goal, splitting on the one defect flag the table reads
+set_option hygiene false in
+macro "vendor_close" : tactic =>
+  `(tactic| first
+    | (vendor_simp; done)
+    | (cases hfl : f.radarsatParseUncaught <;> vendor_simp; done)
+    | (cases hfl : f.tsxDanglingRaises <;> vendor_simp; done)
+    | (cases hfl : f.tiffShortUnguarded <;> vendor_simp; done)
+    | (cases hfl : f.palsarSpecialValueError <;> vendor_simp; done))
+
 /-- a file object is rejected by every foreign opener before anything is read -/
 theorem foreign_rejects_fileobj (v : Vendor) (hv : v.foreign = true) (ha : w.arg = .fileobj) :
-    isA (tab v) w d deep = .reject := by
-  cases v <;> vendor_simp
+    isA (tab f v) w d deep = .reject := by
+  cases v <;> vendor_close
 
 /-- a missing path is rejected by every foreign opener -/
 theorem foreign_rejects_missing (v : Vendor) (hv : v.foreign = true) (hk : w.kind = .missing) :
-    isA (tab v) w d deep = .reject := by
+    isA (tab f v) w d deep = .reject := by
   cases ha : w.arg with
-  | fileobj => exact foreign_rejects_fileobj w d deep v hv ha
-  | path => cases v <;> vendor_simp
+  | fileobj => exact foreign_rejects_fileobj f w d deep v hv ha
+  | path => cases v <;> vendor_close
 
 /-- **signed files**: a regular file (or a file object on it) that starts with a NITF / CPHD / CRSD / SIO signature, lies in a
     directory without PALSAR-named entries and is not called `product.xml`, is rejected by every foreign opener - whatever
     its other name features (`*.xml`, `manifest.safe`), whether h5py is installed, and whatever the opaque remainders would do
     (they are not reached).  No foreign opener raises. -/
 theorem foreign_rejects_signed (v : Vendor) (hv : v.foreign = true) (hm : d.magic ≠ .none)
-    (hok : worldOk w d = true) (hp : writtenPlace w = true) : isA (tab v) w d deep = .reject := by
+    (hok : worldOk w d = true) (hp : writtenPlace w = true) : isA (tab f v) w d deep = .reject := by
   cases ha : w.arg with
-  | fileobj => exact foreign_rejects_fileobj w d deep v hv ha
+  | fileobj => exact foreign_rejects_fileobj f w d deep v hv ha
   | path =>
     cases hmag : d.magic with
     | none => exact absurd hmag hm
-    | sio => cases hn : w.name <;> cases v <;> vendor_simp
-    | nitf21 => cases hn : w.name <;> cases v <;> vendor_simp
-    | nitf20 => cases hn : w.name <;> cases v <;> vendor_simp
-    | nitfOther => cases hn : w.name <;> cases v <;> vendor_simp
-    | cphd => cases hn : w.name <;> cases v <;> vendor_simp
-    | crsd => cases hn : w.name <;> cases v <;> vendor_simp
+    | sio => cases hn : w.name <;> cases v <;> vendor_close
+    | nitf21 => cases hn : w.name <;> cases v <;> vendor_close
+    | nitf20 => cases hn : w.name <;> cases v <;> vendor_close
+    | nitfOther => cases hn : w.name <;> cases v <;> vendor_close
+    | cphd => cases hn : w.name <;> cases v <;> vendor_close
+    | crsd => cases hn : w.name <;> cases v <;> vendor_close
 
 /-- **signature-less files**: a regular file of any length (or a file object) whose leading bytes are none of the vendor
     signatures, with a plain name (or a `*.xml` name and no dangling "<?xml" declaration, no `<level1Product`), in a directory
@@ -120,57 +130,62 @@ theorem foreign_rejects_signed (v : Vendor) (hv : v.foreign = true) (hm : d.magi
 theorem foreign_rejects_unsigned (v : Vendor) (hv : v.foreign = true)
     (hk : w.arg = .fileobj ∨ w.kind = .file) (hh : noVendorHead w = true)
     (hn : w.name = .plain ∨ (w.name = .xmlExt ∧ w.probe = .none)) (hpn : w.palsarNamed = false) :
-    isA (tab v) w d deep = .reject := by
+    isA (tab f v) w d deep = .reject := by
   cases ha : w.arg with
-  | fileobj => exact foreign_rejects_fileobj w d deep v hv ha
+  | fileobj => exact foreign_rejects_fileobj f w d deep v hv ha
   | path =>
     have hk' : w.kind = .file := by
       rcases hk with h | h
       · rw [ha] at h; cases h
       · exact h
-    rcases hn with hn | ⟨hn, hpr⟩ <;> cases hhd : w.head <;> cases v <;> vendor_simp
+    rcases hn with hn | ⟨hn, hpr⟩ <;> cases hhd : w.head <;> cases v <;> vendor_close
 
 /-- **directories** without vendor entries (no IMG-* / LED-* / TRL-* / VOL-* entry, no product.xml, no manifest.safe, no
     `*.xml` file that is a level-1 product or has a dangling declaration) are rejected by every foreign opener -/
 theorem foreign_rejects_dir (v : Vendor) (hv : v.foreign = true) (hk : w.kind = .dir) (hpn : w.palsarNamed = false)
     (hdp : w.dirProduct = false) (hdm : w.dirManifest = false) (hdx : w.dirXml = .none) :
-    isA (tab v) w d deep = .reject := by
+    isA (tab f v) w d deep = .reject := by
   cases ha : w.arg with
-  | fileobj => exact foreign_rejects_fileobj w d deep v hv ha
-  | path => cases v <;> vendor_simp
+  | fileobj => exact foreign_rejects_fileobj f w d deep v hv ha
+  | path => cases v <;> vendor_close
 
 /-! ### exactly when a foreign opener raises out of its guards (remainder taken as rejecting) -/
 
 /-- capella.is_a raises (IndexError from TiffDetails) exactly on a regular file that starts with "II" / "MM" and has
     fewer than four bytes -/
-theorem capella_raises_iff : isA (tab .capella) w d .reject = .raises ↔ w.regular = true ∧ w.head = .tiffShort := by
-  cases ha : w.arg <;> cases hk : w.kind <;> cases hh : w.head <;> cases hb : w.big <;> vendor_simp
+theorem capella_raises_iff :
+    isA (tab f .capella) w d .reject = .raises ↔ f.tiffShortUnguarded = true ∧ w.regular = true ∧ w.head = .tiffShort := by
+  cases hf : f.tiffShortUnguarded <;> cases ha : w.arg <;> cases hk : w.kind <;> cases hh : w.head <;> cases hb : w.big <;> vendor_simp
 
 /-- the general TIFF opener: the same -/
-theorem tiff_raises_iff : isA (tab .tiff) w d .reject = .raises ↔ w.regular = true ∧ w.head = .tiffShort := by
-  cases ha : w.arg <;> cases hk : w.kind <;> cases hh : w.head <;> cases hb : w.big <;> vendor_simp
+theorem tiff_raises_iff :
+    isA (tab f .tiff) w d .reject = .raises ↔ f.tiffShortUnguarded = true ∧ w.regular = true ∧ w.head = .tiffShort := by
+  cases hf : f.tiffShortUnguarded <;> cases ha : w.arg <;> cases hk : w.kind <;> cases hh : w.head <;> cases hb : w.big <;> vendor_simp
 
 /-- radarsat.is_a raises (ElementTree.ParseError, not in its handler) exactly on a regular file called `product.xml` that
     does not parse as XML -/
 theorem radarsat_raises_iff :
-    isA (tab .radarsat) w d .reject = .raises ↔ w.regular = true ∧ w.name = .productXml ∧ w.xmlParses = false := by
-  cases ha : w.arg <;> cases hk : w.kind <;> cases hn : w.name <;> cases hx : w.xmlParses <;> cases hd : w.dirProduct <;> vendor_simp
+    isA (tab f .radarsat) w d .reject = .raises ↔
+      f.radarsatParseUncaught = true ∧ w.regular = true ∧ w.name = .productXml ∧ w.xmlParses = false := by
+  cases hf : f.radarsatParseUncaught <;> cases ha : w.arg <;> cases hk : w.kind <;> cases hn : w.name <;> cases hx : w.xmlParses <;> cases hd : w.dirProduct <;> vendor_simp
 
 /-- tsx.is_a raises (ValueError from `_is_level1_product`) exactly on an existing non-directory path with extension `.xml`
     whose first 200 bytes start "<?xml" without "?>", or a directory holding such a `*.xml` file -/
 theorem tsx_raises_iff :
-    isA (tab .tsx) w d .reject = .raises ↔
-      w.arg = .path ∧ ((w.kind = .dir ∧ w.dirXml = .declOpen) ∨
+    isA (tab f .tsx) w d .reject = .raises ↔
+      f.tsxDanglingRaises = true ∧ w.arg = .path ∧ ((w.kind = .dir ∧ w.dirXml = .declOpen) ∨
         ((w.kind = .file ∨ w.kind = .special) ∧ (w.name = .xmlExt ∨ w.name = .productXml) ∧ w.probe = .declOpen)) := by
-  cases ha : w.arg <;> cases hk : w.kind <;> cases hn : w.name <;> cases hp : w.probe <;> cases hd : w.dirXml <;> vendor_simp
+  cases hf : f.tsxDanglingRaises <;> cases ha : w.arg <;> cases hk : w.kind <;> cases hn : w.name <;> cases hp : w.probe <;>
+    cases hd : w.dirXml <;> vendor_simp
 
 /-- palsar2.is_a raises (ValueError) exactly on an existing path that is neither a regular file nor a directory -/
-theorem palsar2_raises_iff : isA (tab .palsar2) w d .reject = .raises ↔ w.arg = .path ∧ w.kind = .special := by
-  cases ha : w.arg <;> cases hk : w.kind <;> cases hp : w.palsarNamed <;> vendor_simp
+theorem palsar2_raises_iff :
+    isA (tab f .palsar2) w d .reject = .raises ↔ f.palsarSpecialValueError = true ∧ w.arg = .path ∧ w.kind = .special := by
+  cases hf : f.palsarSpecialValueError <;> cases ha : w.arg <;> cases hk : w.kind <;> cases hp : w.palsarNamed <;> vendor_simp
 
 /-- the guards of the remaining foreign openers never raise -/
 theorem guards_never_raise (v : Vendor) (hv : v = .csk ∨ v = .gff ∨ v = .iceye ∨ v = .nisar ∨ v = .sentinel ∨ v = .sio) :
-    isA (tab v) w d .reject ≠ .raises := by
+    isA (tab f v) w d .reject ≠ .raises := by
   rcases hv with h | h | h | h | h | h <;> subst h
   · cases ha : w.arg <;> cases hk : w.kind <;> cases hh : w.head <;> cases h5 : w.h5py <;> vendor_simp
   · cases ha : w.arg <;> cases hk : w.kind <;> cases hh : w.head <;> vendor_simp
@@ -353,7 +368,7 @@ theorem full_eq_model (order : List Vendor) (hs : .sicd ∈ order) (hsio : .sio 
     simp only [writtenPlace, Bool.and_eq_true, Bool.or_eq_true, beq_iff_eq] at hp
     exact hp.1.1
   have hf : ∀ v, v.foreign = true → isAV p w d deep v = .reject :=
-    fun v hv => foreign_rejects_signed w d _ v hv hm hok hp
+    fun v hv => foreign_rejects_signed p.guards w d _ v hv hm hok hp
   have h1 := openComplexWith_eq p w d deep order hs hsio ho hf hk hok h20
   have h2 := openProductV_eq p w d deep hk h20
   have h3 := openPhaseHistoryV_eq p w d deep hk
@@ -413,7 +428,7 @@ theorem no_signature_rejects_full (order : List Vendor)
     openPhaseHistoryV p w d deep = .reject ∧ openReceivedV p w d deep = .reject ∧ openGeneralV p w d deep = .reject ∧
     openTopV p w d deep = .reject := by
   have hf : ∀ v, v.foreign = true → isAV p w d deep v = .reject :=
-    fun v hv => foreign_rejects_unsigned w d _ v hv hk hh hn hpn
+    fun v hv => foreign_rejects_unsigned p.guards w d _ v hv hk hh hn hpn
   have h20 : d.magic ≠ .nitf20 := by rw [hm]; decide
   obtain ⟨o1, o2, o3, o4, o5, _⟩ := no_signature_rejects p.base d hm
   have hall : ∀ v, isAV p w d deep v = .reject := by
@@ -480,7 +495,7 @@ theorem dir_rejects_full (order : List Vendor) (ha : w.arg = .path) (hk : w.kind
   have hall : ∀ v, isAV p w dirDesc deep v = .reject := by
     intro v
     cases hv : v.foreign with
-    | true => exact foreign_rejects_dir w dirDesc _ v hv hk hpn hdp hdm hdx
+    | true => exact foreign_rejects_dir p.guards w dirDesc _ v hv hk hpn hdp hdm hdx
     | false =>
       cases v <;> first | (exact absurd hv (by decide)) | skip
       all_goals
@@ -563,7 +578,7 @@ theorem nitf20_fallback (w : World) (deep : Vendor → Decision) (hm : d.magic =
     simp only [writtenPlace, Bool.and_eq_true, Bool.or_eq_true, beq_iff_eq] at hp
     exact hp.1.1
   have hf : ∀ v, v.foreign = true → isAV p w d deep v = .reject :=
-    fun v hv => foreign_rejects_signed w d _ v hv hne hok hp
+    fun v hv => foreign_rejects_signed p.guards w d _ v hv hne hok hp
   obtain ⟨hs, hpr⟩ := nitf_without_family_des_rejects p d h
   have hsio : isAV p w d deep .sio = .reject := by
     rw [isAV_sio p w d deep hk hok]; simp [sioIsA, hm]
@@ -616,9 +631,11 @@ end nitf20
 /-! ## satisfiable instances and witnesses -/
 
 /-- the reader as it stands in the tree this file was written against -/
-def current2 : Policy2 := { siddRefusesGraphics := false, nitf20SkipsSymLab := true, nitf20SarRaises := true }
+def current2 : Policy2 :=
+  { siddRefusesGraphics := false, nitf20SkipsSymLab := true, nitf20SarRaises := true, guards := ⟨true, true, true, true⟩ }
 /-- ... and with the two NITF 2.0 defects repaired -/
-def repaired2 : Policy2 := { siddRefusesGraphics := false, nitf20SkipsSymLab := false, nitf20SarRaises := false }
+def repaired2 : Policy2 :=
+  { siddRefusesGraphics := false, nitf20SkipsSymLab := false, nitf20SarRaises := false, guards := ⟨false, false, false, false⟩ }
 
 /-- a file written by sarpy, handed over by path under a plain name -/
 def plainFile (a : Arg) : World :=
@@ -652,6 +669,13 @@ example : openTopV current2 { plainFile .path with name := .xmlExt, probe := .de
   decide
 example : openTopV current2 { plainFile .path with kind := .special } blobDesc (fun _ => .reject) = .raises := by decide
 example : openTopV current2 { plainFile .path with kind := .dir } dirDesc (fun _ => .raises) = .reject := by decide
+/-- ... and with the four guards repaired each of them is rejected, and the SICD called product.xml opens -/
+example : openTopV repaired2 { plainFile .path with len4 := false, head := .tiffShort } blobDesc (fun _ => .raises) = .reject := by decide
+example : openTopV repaired2 { plainFile .path with name := .xmlExt, probe := .declOpen } blobDesc (fun _ => .raises) = .reject := by
+  decide
+example : openTopV repaired2 { plainFile .path with kind := .special } blobDesc (fun _ => .raises) = .reject := by decide
+example : openComplexV repaired2 { plainFile .path with name := .productXml } (writeSicd [] 0) (fun _ => .raises) = .accept .sicd := by
+  decide
 
 /-- NITF 2.0: one complex-like and one non-SAR image segment, two symbol segments, one label, one XML DES that is no SICD -/
 def nitf20Desc : Desc :=
